@@ -185,24 +185,41 @@ def run(ctx):
         ctx.check(rt.endswith("&") and not rt.endswith("&&") and "const" not in rt, "R08.4", f, "chains-by-reference:%s/%d" % (f.name, len(f.params)),
                   "%s returns `%s`: whatever is chained onto its result (`f.args(a) %% b`, `f %% a %% b`) goes to a temporary copy and never reaches the formatter that is rendered" % (f.name, rt), f,
                   why_ok=rt)
-    # ---- R08.5
-    me = [f for f in prog.fns.values() if f.has_cfg and f.is_pattern and (f.cls or "").startswith("nitro::except::detail::make_exception") and f.op == "()"]
-    ctx.need("R08.5", "make_exception::operator() patterns", len(me), 2)
+    # ---- R08.5: the message is the stream representation of the arguments, one after the other. The recursion over the pack may
+    # be written as a function-object template (make_exception<Arg, Args...>) or as overloaded function templates: a
+    # *streamer* is a pattern in nitro::except::detail whose first parameter is the stream and whose second is forwarded into it
+    def is_streamer(f):
+        return f.has_cfg and f.is_pattern and f.qual.startswith("nitro::except::detail::") and len(f.params) >= 2 and "stream" in (f.params[0].get("type") or "") \
+            and (f.params[0].get("type") or "").rstrip().endswith("&") and f.params[1].get("fwd") is not None or \
+            (f.has_cfg and f.is_pattern and (f.cls or "").startswith("nitro::except::detail::") and f.op == "()" and len(f.params) >= 2 and "stream" in (f.params[0].get("type") or ""))
+    me = [f for f in prog.fns.values() if is_streamer(f)]
+    ctx.need("R08.5", "message streamers (base case + recursive case)", len(me), 2)
+    family = {(f.cls or f.qual) for f in me}
+    fam_short = {short(x).split("<")[0] for x in family}
+    has_base = has_rec = False
     for f in me:
         body = [fmt(e["expr"]) for _, _, e in f.roots()]
         m, a = f.params[0]["name"], f.params[1]["name"]
         first = body[:1] == ["(%s << forward(%s))" % (m, a)]
-        if len(f.params) == 2 and "Args" not in f.id.split("(")[1]:
-            ctx.check(first and len(body) == 1, "R08.5", f, "streams-last-argument", "make_exception<Arg> does %s" % body, f)
+        variadic = any((p0.get("type") or "").rstrip().endswith("...") for p0 in f.params)
+        if not variadic:
+            has_base = True
+            ctx.check(first and len(body) == 1, "R08.5", f, "streams-last-argument", "%s does %s instead of streaming its one argument" % (short(f.qual), body), f)
         else:
-            rec = len(body) == 2 and re.fullmatch(r"make_exception<Args\.\.\.>\{\}\(%s, forward\(%s\)\.\.\.\)|\?\(%s, forward\(%s\)\.\.\.\)" % (m, f.params[2]["name"] if len(f.params) > 2 else "args", m, f.params[2]["name"] if len(f.params) > 2 else "args"), body[1]) is not None
-            ctx.check(first and rec, "R08.5", f, "streams-first-then-recurses", "make_exception<Arg, Args...> does %s" % body, f)
+            has_rec = True
+            rest = f.params[2]["name"] if len(f.params) > 2 else "args"
+            calls = [n for _, _, e in list(f.roots())[1:] for n in walk(e["expr"]) if n.get("k") in ("call", "ucall")]
+            rec = len(body) == 2 and bool(calls) and any(short((n.get("name") or "")).split("<")[0] in fam_short or re.match(r"(%s)<" % "|".join(map(re.escape, fam_short)), fmt(n)) or fmt(n).startswith("?(") for n in calls) \
+                and re.search(r"\(%s, forward\(%s\)\.\.\.\)$" % (re.escape(m), re.escape(rest)), body[1]) is not None
+            ctx.check(first and rec, "R08.5", f, "streams-first-then-recurses", "%s does %s instead of streaming the first argument and handing the rest on in order" % (short(f.qual), body), f)
+    ctx.check(has_base and has_rec, "R08.5", "nitro::except::detail", "recursion-complete", "the pack recursion lacks its %s case" % ("base" if not has_base else "recursive"), "-")
     ms = [f for f in prog.fns.values() if f.has_cfg and f.is_pattern and f.qual == "nitro::except::detail::make_string"]
     for f in ms:
         body = [fmt(e["expr"]) for _, _, e in f.roots()]
         sv = [v["name"] for _, _, e in f.roots() if e["expr"].get("k") == "decl" for v in e["expr"]["vars"] if "stringstream" in (v.get("type") or "")]
         pa = f.params[0]["name"] if f.params else "args"
-        ok = len(body) == 3 and len(sv) == 1 and body[2] == "return %s.str()" % sv[0] and "(%s, forward(%s)...)" % (sv[0], pa) in body[1]
+        ok = len(body) == 3 and len(sv) == 1 and body[2] == "return %s.str()" % sv[0] and body[1].endswith("(%s, forward(%s)...)" % (sv[0], pa)) \
+            and (body[1].startswith("?(") or short(body[1].split("(")[0]).split("<")[0] in fam_short or re.match(r"(%s)<" % "|".join(map(re.escape, fam_short or {"-"})), body[1]) is not None)
         ctx.check(ok, "R08.5", f, "make_string-returns-stream-text", "make_string is %s" % body, f)
     ex = [f for f in prog.fns.values() if f.has_cfg and f.is_pattern and f.cls == "nitro::except::exception" and f.kind == "ctor"]
     ctx.need("R08.5", "except::exception constructor (pattern)", len(ex), 1)
